@@ -1033,6 +1033,12 @@ def feasible_reach(an, start, env=None, limit=4000):
                     e.pop(L, None)
             elif rv.kind == "use" and rv.ops[0].kind in ("copy", "move") and rv.ops[0].place.is_local() and rv.ops[0].place.local in e:
                 e[L] = e[rv.ops[0].place.local]
+            elif rv.kind == "use" and rv.ops[0].kind == "const" and rv.ops[0].const_int() is not None:
+                # boolean / integer temporaries set on one branch and tested after a join
+                e[L] = ("c", rv.ops[0].const_int())
+                e.pop(("d", L), None)
+            elif rv.kind == "unop" and rv.j["op"] == "Not" and rv.ops[0].kind in ("copy", "move") and rv.ops[0].place.is_local() and isinstance(e.get(rv.ops[0].place.local), tuple) and e[rv.ops[0].place.local][0] == "c":
+                e[L] = ("c", 0 if e[rv.ops[0].place.local][1] else 1)
             elif rv.kind == "discr" and rv.place.is_local() and rv.place.local in e and rv.j.get("variants"):
                 val = None
                 for vv, nm in rv.j["variants"]:
@@ -1065,6 +1071,9 @@ def feasible_reach(an, start, env=None, limit=4000):
             val = None
             if d.kind in ("copy", "move") and d.place.is_local():
                 val = e.get(("d", d.place.local))
+                cv = e.get(d.place.local)
+                if val is None and isinstance(cv, tuple) and cv[0] == "c":
+                    val = cv[1]
             if val is not None:
                 tgt = None
                 for vv, tb in t.targets:
